@@ -347,6 +347,16 @@ def programs(tier: str) -> list[Program]:
                               (lambda ex, n=n, crash=crash: execute_dbos(ex, n, 5.0, crash)), max_dev=(3 if q else 5)))
         ps.append(Program(f"dbos_two_replicas/waits={n}/releaser_stalls", {"waits": n, "stall": True},
                           (lambda ex, n=n: execute_dbos(ex, n, 5.0, False, True)), max_dev=(4 if q else 5)))
+    # two resumers of one run: a restarted server's start-up pass and the on-demand reload triggered by a client's event, over a
+    # store whose reads suspend (C13's driver): the event must be processed exactly once and the run resumed by one of them
+    from vmc.checks import c13 as _c13
+
+    for backend in (("memory",) if q else ("memory", "sqlite")):
+        for k in ((2, 3) if q else range(1, 8)):
+            ps.append(Program(f"restart_vs_on_demand_reload/{backend}/network_store/stop_after_tick_{k:02d}",
+                              {"workflow": "restart_vs_on_demand_reload", "backend": backend, "crash_at": k},
+                              (lambda ex, backend=backend, k=k: _c13.execute(ex, "wait_busy_answer_after_restart", backend, k, network=True)),
+                              max_dev=(4 if q else 5)))
     return ps
 
 
